@@ -67,6 +67,9 @@ class Repo:
                 tree = ast.parse(self.src(rel), filename=rel)
             except SyntaxError as e:
                 raise AnalysisError(f'{rel} does not parse: {e}') from e
+            # locals renamed by an edit are renamed back to the vocabulary the rules use, where structure alone decides it
+            from .localnames import renormalize_py
+            renormalize_py(tree, rel)
             for parent in ast.walk(tree):
                 for child in ast.iter_child_nodes(parent):
                     child._parent = parent            # type: ignore[attr-defined]
